@@ -27,6 +27,7 @@ EXPLANATION = (
     " (R11) _collect_config_and_extras lets the more derived model override the accumulated options and extras (acc.update(new) / {**acc, **new}, never the transposed spelling); (R12) the column builders look custom checks / parsers up with the key of the fields mapping they iterate (the alias), not field.original_name. " 
     "NOT decided: annotation -> dtype translation; MRO semantics at run "
     "time; verdict equality on data."
+    ' (R13) while BaseFieldInfo hashes / compares by name, the @check / @parser factories (pandas/polars and pyspark) hand the designations to the *Info object without set / frozenset / dict-key / set-comprehension: at decoration time every class-scope Field still has name None and a hash container would keep only the first.'
 )
 LEVEL_RULE = "one obligation per twin pair / config option / dispatch key / field attribute / write site"
 FLOORS = {"R1": 4, "R2": 12, "R3": 16, "R4": 14, "R5": 1, "R6": 1, "R7": 1, "R8": 1, "R9": 1, "R10": 1, "R11": 2, "R12": 3}
@@ -543,6 +544,59 @@ def r12_checks_keyed_like_fields(ctx):
         raise AnalysisError(f"model column builders: check / parser look-ups found: {n}")
 
 
+_HASHING = ("set", "frozenset")
+
+
+def r13_designations_not_hashed_before_named(ctx):
+    """`@pa.check(a, b)` / `@pa.parser(a, b)` may be given the class-scope Field objects.  The decorator runs while the
+    class body executes, i.e. before `__set_name__` gave the fields their names; FieldInfo hashes and compares by `name`
+    (None for all of them at that time), so any hash-based container built from the designations *at decoration time*
+    collapses distinct fields into one and the check silently applies to the first field only.  Decided: as long as
+    BaseFieldInfo's `__hash__` / `__eq__` read `name`, the factories hand the designations to the *Info object without
+    passing them through set / frozenset / dict keys / a set comprehension (the extractors de-duplicate by name later,
+    after the names exist)."""
+    ix = ctx.ix
+    base = ix.cls("pandera/api/base/model_components.py::BaseFieldInfo")
+    name_based = False
+    for mname in ("__hash__", "__eq__"):
+        f = base.lookup(mname)
+        if f is not None and any(isinstance(x, ast.Attribute) and x.attr in ("name", "alias", "original_name") for x in ast.walk(f.node)):
+            name_based = True
+    n = 0
+    for mp in ("pandera/api/dataframe/model_components.py", "pandera/api/pyspark/model_components.py"):
+        m = ix.module(mp)
+        for f in m.functions.values():
+            va = f.node.args.vararg
+            if va is None:
+                continue
+            ctors = [c for c in calls_in(f.node, nested=True) if callee_last(c).endswith("Info") and c.args
+                     and any(isinstance(x, ast.Name) and x.id == va.arg for x in ast.walk(c.args[0]))]
+            # the designations may also reach the constructor through a local
+            local = {}
+            for st in ast.walk(f.node):
+                if isinstance(st, ast.Assign) and len(st.targets) == 1 and isinstance(st.targets[0], ast.Name) \
+                        and any(isinstance(x, ast.Name) and x.id == va.arg for x in ast.walk(st.value)):
+                    local[st.targets[0].id] = st.value
+            for c in calls_in(f.node, nested=True):
+                if callee_last(c).endswith("Info") and c.args and isinstance(c.args[0], ast.Name) and c.args[0].id in local and c not in ctors:
+                    ctors.append(c)
+            for c in ctors:
+                n += 1
+                ctx.touched(f)
+                expr = local.get(c.args[0].id, c.args[0]) if isinstance(c.args[0], ast.Name) else c.args[0]
+                hashed = [x for x in ast.walk(expr) if (isinstance(x, ast.Call) and callee_last(x) in _HASHING)
+                          or isinstance(x, (ast.SetComp, ast.Set, ast.DictComp))
+                          or (isinstance(x, ast.Call) and callee_last(x) == "fromkeys")]
+                ok = not (name_based and hashed)
+                ctx.ob("R13", f, f"{f.short}: the designations reach `{callee_last(c)}` without being hashed at decoration time", ok,
+                       "kept in order as given" if ok else
+                       f"`{txt(hashed[0])[:40]}` hashes Field objects whose name is still None while the class body runs: `@pa.{f.name}(a, b)` with two class-scope "
+                       "fields keeps only `a`, column `b` silently has no check (the same model written with names, and the object-API schema, reject the frame)",
+                       f.loc(c))
+    if n < 3:
+        raise AnalysisError(f"field check / parser decorator factories found: {n}")
+
+
 def run(ctx):
     from ..defassign import check_modules
     check_modules(ctx, "R8", ('pandera/api/dataframe/model.py', 'pandera/api/dataframe/model_components.py', 'pandera/api/pandas/model.py', 'pandera/api/polars/model.py', 'pandera/api/base/model.py', 'pandera/api/base/model_components.py'), "escapes to_schema()/validate of the model")
@@ -552,6 +606,7 @@ def run(ctx):
     r10_field_check_options(ctx)
     r11_config_merge_direction(ctx)
     r12_checks_keyed_like_fields(ctx)
+    r13_designations_not_hashed_before_named(ctx)
     r1_twins(ctx)
     r2_config(ctx)
     r3_dispatch(ctx)
